@@ -10,6 +10,7 @@ for these constructs.
 from typing import List, Tuple
 
 from pyopenapi_gen.context.render_context import RenderContext
+from pyopenapi_gen.core.utils import NameSanitizer
 
 from .code_writer import CodeWriter, python_string_literal
 from .documentation_writer import DocumentationBlock, DocumentationWriter
@@ -112,15 +113,16 @@ class PythonConstructRenderer:
                 writer.write_line("")
                 writer.write_line("    def get_mapping(self) -> dict[str, type]:")
                 writer.write_line('        """Get discriminator mapping with actual type references."""')
-                # Import types locally
+                # Import types locally, under the same module and class names the model files are emitted with
                 for disc_value, schema_ref in discriminator.mapping.items():
                     schema_name = schema_ref.split("/")[-1]
-                    module_name = self._to_module_name(schema_name)
-                    writer.write_line(f"        from .{module_name} import {schema_name}")
+                    module_name = NameSanitizer.sanitize_module_name(schema_name)
+                    class_name = NameSanitizer.sanitize_class_name(schema_name)
+                    writer.write_line(f"        from .{module_name} import {class_name}")
                 writer.write_line("        return {")
                 for disc_value, schema_ref in discriminator.mapping.items():
-                    schema_name = schema_ref.split("/")[-1]
-                    writer.write_line(f"            {python_string_literal(disc_value)}: {schema_name},")
+                    class_name = NameSanitizer.sanitize_class_name(schema_ref.split("/")[-1])
+                    writer.write_line(f"            {python_string_literal(disc_value)}: {class_name},")
                 writer.write_line("        }")
             else:
                 writer.write_line("    _mapping_data: tuple[tuple[str, str], ...] | None = None")
